@@ -38,11 +38,11 @@ def Gen.quirks : Quirks :=
 /-! ## booster::regex on top of the engine -/
 
 /-- `mark_count()+1` -/
-def patSize (rx : Rx) (r : Regex) : Nat := (rx.info r.pat r.icase).getD 0 + 1
+def patSize (rx : Rx) (r : Regex) : Nat := (rx.info r.pat r.flags).getD 0 + 1
 
 /-- `regex::match(begin,end,marks,flags)` + `cmatch::assign`: `none` = `false`. -/
 def rxMatchMarks (rx : Rx) (q : Quirks) (r : Regex) (s : Bytes) : Option CMatch :=
-  match rx.exec r.pat r.icase s with
+  match rx.exec r.pat r.flags s with
   | none => none
   | some (sp0, gs) =>
     if q.spanRejectMarks sp0.1 sp0.2 s.length then none
@@ -53,7 +53,7 @@ def rxMatchMarks (rx : Rx) (q : Quirks) (r : Regex) (s : Bytes) : Option CMatch 
 
 /-- `regex::match(begin,end,flags)` -/
 def rxMatch (rx : Rx) (q : Quirks) (r : Regex) (s : Bytes) : Bool :=
-  match rx.exec r.pat r.icase s with
+  match rx.exec r.pat r.flags s with
   | none => false
   | some (sp0, _) => !q.spanRejectNoMarks sp0.1 sp0.2 s.length
 
@@ -70,12 +70,86 @@ def methodOk (rx : Rx) (q : Quirks) (filter : Option Bytes) (req : Option Bytes)
   | some m =>
     match req with
     | none => false
-    | some r => if methodLiteral m then m == r else rxMatch rx q ⟨m, false⟩ r
+    | some r => if methodLiteral m then m == r else rxMatch rx q ⟨m, {}⟩ r
 
 /-- `option::matches` : on success `match_` is set -/
 def optMatches (rx : Rx) (q : Quirks) (re : Regex) (filter : Option Bytes) (req : Option Bytes) (path : Bytes) :
     Option CMatch :=
   if methodOk rx q filter req then rxMatchMarks rx q re (if q.pathCStr then cstr path else path) else none
+
+/-! ### typed handlers of `url_dispatcher::map()` : `std::istream >> value` on a captured group
+
+`url_binder::operator()` runs, per parameter and in order, `validate_encoding` (external, `rx.valid`) and
+`parse_url_parameter`: `std::string` takes the bytes as they are; any other type is read with
+`parameter >> value` and must consume the whole group (`!parameter || !parameter.eof()` ⇒ `false`).
+For the integer types that is libstdc++'s `num_get::_M_extract_int` in base 10 (no grouping in the request locale's
+`numpunct`): the stream sentry skips leading white space, one optional sign, then the digit loop below with its
+incremental overflow test. -/
+
+/-- `std::isspace` of `ctype<char>`: blank, `\t \n \v \f \r` -/
+def isSpace (c : UInt8) : Bool := c == 32 || (9 ≤ c.toNat && c.toNat ≤ 13)
+
+def isDigit (c : UInt8) : Bool := 48 ≤ c.toNat && c.toNat ≤ 57
+
+structure NumTy where
+  signed : Bool
+  bits : Nat
+deriving DecidableEq, Repr
+
+def PType.num : PType → Option NumTy
+  | .str => none
+  | .i32 => some ⟨true, 32⟩
+  | .u32 => some ⟨false, 32⟩
+  | .i64 => some ⟨true, 64⟩
+  | .u64 => some ⟨false, 64⟩
+
+/-- the digit loop of `_M_extract_int`: `result`, `testoverflow`, number of digits, and what is left unread.
+`if (result > max/10) overflow = true; else { result *= 10; overflow |= result > max - digit; result += digit; }` -/
+def scanDigits (max : Nat) : Bytes → Nat → Bool → Nat → Nat × Bool × Nat × Bytes
+  | [], r, o, n => (r, o, n, [])
+  | c :: cs, r, o, n =>
+    if isDigit c then
+      let d := c.toNat - 48
+      if r > max / 10 then scanDigits max cs r true (n + 1)
+      else scanDigits max cs (r * 10 + d) (o || decide (r * 10 > max - d)) (n + 1)
+    else (r, o, n, c :: cs)
+
+/-- largest magnitude `_M_extract_int` accepts: `-min` for a negative signed number, else `max` -/
+def numMax (t : NumTy) (neg : Bool) : Nat :=
+  if t.signed then (if neg then 2 ^ (t.bits - 1) else 2 ^ (t.bits - 1) - 1) else 2 ^ t.bits - 1
+
+/-- `parameter >> value` followed by the `eof()` test; `none` = `parse_url_parameter` returns `false` -/
+def parseNum (t : NumTy) (s : Bytes) : Option Int :=
+  let s := s.dropWhile isSpace
+  let neg := s.head? == some 45
+  let s := if s.head? == some 45 || s.head? == some 43 then s.drop 1 else s
+  match scanDigits (numMax t neg) s 0 false 0 with
+  | (r, o, n, rest) =>
+    if n == 0 || o || !rest.isEmpty then none
+    else if neg then (if t.signed then some (-(r : Int)) else some (((2 ^ t.bits - r) % 2 ^ t.bits : Nat) : Int))
+    else some (r : Int)
+
+/-- decimal text of a value, as the harness prints what the member function received -/
+def decInt (v : Int) : Bytes :=
+  let ds := (Nat.toDigits 10 v.natAbs).map fun c => UInt8.ofNat c.toNat
+  if v < 0 then 45 :: ds else ds
+
+/-- `url_dispatcher::parse<T>` : `none` = the handler declines -/
+def convertParam (rx : Rx) (t : PType) (s : Bytes) : Option Bytes :=
+  if !rx.valid s then none
+  else match t.num with
+    | none => some s
+    | some nt => (parseNum nt s).map decInt
+
+/-- the `CPPCMS_DEFANDPARSE` chain: parameters are converted in order, the first failure returns `false` -/
+def convertAll (rx : Rx) (m : CMatch) : List (Int × PType) → Option (List (Option Bytes))
+  | [] => some []
+  | (g, t) :: rest =>
+    match convertParam rx t (m.str g) with
+    | none => none
+    | some v => match convertAll rx m rest with
+      | none => none
+      | some vs => some (some v :: vs)
 
 /-- what one call of `option::dispatch` did -/
 inductive Attempt where
@@ -100,6 +174,13 @@ def leafAttempt (rx : Rx) (q : Quirks) (req : Option Bytes) (l : Leaf) (url : By
     else match optMatches rx q l.re l.meth req url with
       | none => .skip
       | some m => if genRejects rej m then .reject (.rejected l.id m.all) else .fire [.ran l.id m.all]
+  | .typed ps =>
+    if req.isNone then .skip            -- `map()` registers a `generic_option`
+    else match optMatches rx q l.re l.meth req url with
+      | none => .skip
+      | some m => match convertAll rx m ps with
+        | none => .skip                 -- a parameter did not validate/convert: member not called, scan continues
+        | some vals => .fire [.ran l.id vals]
   | .h0 => match optMatches rx q l.re none req url with
       | none => .skip
       | some _ => .fire [.ran l.id []]
